@@ -78,6 +78,7 @@ def run(ctx, rep):
     loop_boundary(F, rep)
     literal_conversions(F, rep)
     single_visit(F, rep)
+    borrow_discipline(F, rep)
     rep.extra["analysis_rounds"] = fl.rounds
     rep.extra["hand_assembled_option_unwraps_counted_not_judged"] = getattr(fl, "uncounted", 0)
     # K4 panics outside the clause: counted
@@ -293,3 +294,27 @@ def single_visit(F, rep):
     rep.ob("C16.single-visit", "no recursive walker of the syntax tree descends twice into the same child on one path (%d recursive calls on children inspected)" % n_calls,
            "ok" if not doubles else "violated", "", None, key="C16.single-visit|summary")
     rep.floor("C16.single-visit recursive calls on child fields inspected", n_calls, 40)
+
+
+SCOPE_CELL = "alloc::vec::Vec<compiler::scope::Scope>"
+
+
+def borrow_discipline(F, rep):
+    """No `RefCell already borrowed` panic on the scope stack: see props/_borrows.py.  One obligation per function that holds a guard into the
+    scope stack, a violation per call of a scope-stack mutator made while the guard may be alive."""
+    from props import _borrows
+    bad, _ok, st = _borrows.judge(F, SCOPE_CELL, "compiler")
+    hits = [(f, l, prod, c) for f, l, prod, c, _why in bad]
+    rep.floor("C16.borrow functions holding scope-stack guards", st["functions_with_guards"], 40)
+    rep.floor("C16.borrow guards born", st["guards_born"], 30)
+    rep.floor("C16.borrow functions that may mutably borrow the scope stack", st["mutators"], 40)
+    by_fn = {}
+    for f, l, prod, c in hits:
+        by_fn.setdefault((f.path, mir.short(prod.callee()), mir.short(c.callee())), (f, l, prod, c))
+    for (fp, pn, cn), (f, l, prod, c) in sorted(by_fn.items()):
+        rep.ob("C16.borrow", "%s calls %s while the guard from %s (`%s`) is alive" % (mir.short(fp), cn, pn, f.local_name(l)), "violated",
+               "%s can take a mutable borrow of the scope stack (RefCell<Vec<Scope>>); with the guard from %s still alive the compiler panics with "
+               "`RefCell already borrowed` instead of compiling or reporting an error" % (cn, prod.span), c.span, fn=f.path,
+               key="C16.borrow|%s|%s|%s" % (mir.short(fp), pn, cn))
+    rep.ob("C16.borrow", "no scope-stack mutator runs while a guard into the scope stack is alive (%d functions with guards, %d guards, %d mutators)" % (
+        st["functions_with_guards"], st["guards_born"], st["mutators"]), "ok", "", None, key="C16.borrow|summary")
